@@ -43,7 +43,7 @@ def run(ctx: Ctx) -> int:
 	design_cex = coded.invariant_violated + coded.action_property_violated
 	ctx.log(f'TLC: sound keys {sound.distinct} states OK; keys as coded: {coded.distinct} states, violated at design level: {design_cex or "nothing"}')
 
-	edges_res = tlc.run('MCTranp', 'Tranp_cache_edges5.cfg' if quick else 'Tranp_cache_edges6.cfg', workers=1, timeout=900)
+	edges_res = tlc.run('MCTranp', 'Tranp_cache_edges4.cfg' if quick else 'Tranp_cache_edges6.cfg', workers=1, timeout=900)
 	edges = [json.loads(line) for line in edges_res.lines('EDGE ')]
 	if not edges:
 		raise Machinery('no edges emitted')
@@ -62,6 +62,20 @@ def run(ctx: Ctx) -> int:
 	ctx.log(f'diamond graph: sound keys {dsound.distinct} states OK; replayed {dreplay["edges"]} edges ({dreplay["stats"].get("runs", 0)} real runs); {len(dreplay["failures"])} discrepancies')
 	seen = {v.key for v in violations}
 	violations += [v for v in collect(ctx, PROP, dreplay) if v.key not in seen]
+	# modification times that do not only grow (an edit may set a time the file had before), three different bodies
+	tsound = tlc.run('MCTranp', 'TranpT_cache_sound.cfg', workers=16, timeout=900)
+	if not tsound.ok:
+		raise Machinery(f'TLC: the sound-key model violates a C05 clause with returning modification times: {tsound.out[-1500:]}')
+	tpinned = tlc.run('MCTranp', 'TranpT_cache_pinned.cfg', workers=16, timeout=900)
+	if tpinned.ok:
+		raise Machinery('TLC: a tree cache keyed by modification time only should not be coherent when times return (vacuity guard)')
+	tres = tlc.run('MCTranp', 'TranpT_cache_edges5.cfg', workers=1, timeout=900)
+	tedges = [json.loads(line) for line in tres.lines('EDGE ')]
+	treplay = replay_edges('Pair', tedges)
+	treplay['graph'] = 'Pair'
+	ctx.log(f'returning modification times: sound keys {tsound.distinct} states OK; replayed {treplay["edges"]} edges ({treplay["stats"].get("runs", 0)} real runs); {len(treplay["failures"])} discrepancies')
+	seen = {v.key for v in violations}
+	violations += [v for v in collect(ctx, PROP, treplay) if v.key not in seen]
 
 	coverage = {
 		'states': sound.distinct + coded.distinct,
@@ -77,6 +91,7 @@ def run(ctx: Ctx) -> int:
 		'bounds': {'graph': 'chain a->b->c and diamond a->{b,c}->d', 'variants': 2, 'operations': 4 if quick else 5, 'damaged_files': 1},
 		'diamond_edges_replayed_on_impl': dreplay['edges'],
 		'diamond_real_runs': dreplay['stats'].get('runs', 0),
+		'returning_mtime_edges_replayed_on_impl': treplay['edges'],
 		'samples': [{'history': [e['op'] for e in edges[:1]]}, {'edge': edges[len(edges) // 2]['op']}],
 		'clauses': CLAUSES,
 	}
